@@ -907,6 +907,18 @@ fn extract<'tcx>(tcx: TyCtxt<'tcx>) -> J {
             o.push(("vis", J::s(format!("{:?}", tcx.visibility(did)))));
             let sig = tcx.fn_sig(did).instantiate_identity().skip_normalization().skip_binder();
             o.push(("unsafe", J::Bool(!sig.safety().is_safe())));
+            // generic parameter names (parent impl's first, then the function's own), in substitution order
+            let mut gnames: Vec<J> = Vec::new();
+            let gens = tcx.generics_of(did);
+            if let Some(parent) = gens.parent {
+                for p in tcx.generics_of(parent).own_params.iter() {
+                    gnames.push(J::s(p.name.to_string()));
+                }
+            }
+            for p in gens.own_params.iter() {
+                gnames.push(J::s(p.name.to_string()));
+            }
+            o.push(("generics", J::Arr(gnames)));
             o.push(("ret", J::s(ty_str(sig.output()))));
             o.push((
                 "param_tys",
